@@ -58,7 +58,10 @@ def judge(v, seq, seed, rnd, stats):
                     signature={'component': 'terminated', 'kind': loop.current, 'exception': type(ex).__name__})
         return
     a, b = loop.legit.established()
-    if 'ESTABLISHED' not in a or 'ESTABLISHED' not in b or loop.legit.stage < 2:
+    if 'NEWSA' in loop.netlink_refused:
+        # the kernel refused to install an SA: the session cannot complete, and that is not the daemon's fault; it must survive and answer
+        stats['kernel_refusals_hit'] = stats.get('kernel_refusals_hit', 0) + 1
+    elif not loop.legit.completed:
         v.violation(f'the legitimate session did not complete (daemon: {a}, peer: {b}, stage {loop.legit.stage}) under schedule: {what}', {'schedule': seq},
                     signature={'component': 'not-served', 'hostile': sorted(set(seq) - {'legit'})[0] if set(seq) - {'legit'} else '-'})
         return
@@ -85,14 +88,14 @@ def run(tier, replay=None):
     # every hostile kind at every moment of the legitimate session (all schedules with one hostile event), from the dumped graph
     g = tlcgraph.dump('MainLoop.tla', cfg(1 if tier == 'quick' else 2, fair=False, dump=True), 'mainloop', {}, lambda st: True)
     g.full_sources = True
-    seqs = [s for s in sequences_from_graph(g) if s.count('legit') == 4]
+    seqs = [s for s in sequences_from_graph(g) if s.count('legit') == 5]
     if tier == 'thorough' and len(seqs) > 3000:
         seqs = [s for s in seqs if sum(1 for k in s if k != 'legit') <= 1] + rnd.sample([s for s in seqs if sum(1 for k in s if k != 'legit') == 2], 3000)
     # longer hostile bursts from TLC's simulation mode
     sim = tlcgraph.simulate('MainLoop.tla', cfg(4, fair=False, dump=True), 120 if tier == 'quick' else 3000, 20, seed=common.SEED)
     for b in sim:
         s = [a['kind'] if a['a'] == 'Hostile' else 'legit' for a, dd, t, ff in b if a['a'] in ('Hostile', 'Legit')]
-        s += ['legit'] * (4 - s.count('legit'))
+        s += ['legit'] * (5 - s.count('legit'))
         seqs.append(s)
     stats = {'runs': 0, 'events': 0, 'max_lines_per_event': 0, 'kinds': {}}
     for i, s in enumerate(seqs):
